@@ -661,8 +661,11 @@ namespace bloch::runtime {
                     return thisObj->fields[field->offset];
             }
             auto [field, owner] = findStaticFieldWithOwner(m_currentClassCtx, name);
-            if (field && owner && field->offset < owner->staticStorage.size())
+            if (field && owner && field->offset < owner->staticStorage.size()) {
+                if (!owner->staticsInitialised)
+                    initStaticFields(owner);
                 return owner->staticStorage[field->offset];
+            }
         }
         auto clsIt = m_classTable.find(name);
         if (clsIt != m_classTable.end()) {
@@ -1273,6 +1276,10 @@ namespace bloch::runtime {
     void RuntimeEvaluator::initStaticFields(RuntimeClass* cls) {
         if (!cls)
             return;
+        // Marked before the initialisers run: an initialiser that reads a static of another class
+        // initialises that class on demand (see the static reads in lookup/eval), and a cyclic
+        // reference sees the default value instead of recursing.
+        cls->staticsInitialised = true;
         for (size_t i = 0; i < cls->staticFields.size(); ++i) {
             auto& field = cls->staticFields[i];
             auto& slot = cls->staticStorage[i];
@@ -2564,8 +2571,13 @@ namespace bloch::runtime {
                 RuntimeMethod* method = findMethod(obj.classRef, memAcc->member);
                 if (field && owner) {
                     size_t idx = field->offset;
-                    if (idx < owner->staticStorage.size())
+                    if (idx < owner->staticStorage.size()) {
+                        // A static read from another class's static initialiser may arrive before
+                        // that class has been initialised: classes are initialised in table order.
+                        if (!owner->staticsInitialised)
+                            initStaticFields(owner);
                         return owner->staticStorage[idx];
+                    }
                 } else if (method) {
                     Value v;
                     v.type = Value::Type::ClassRef;
@@ -2588,8 +2600,11 @@ namespace bloch::runtime {
                         obj.objectValue->cls
                             ? findStaticFieldWithOwner(obj.objectValue->cls, memAcc->member)
                             : std::pair<RuntimeField*, RuntimeClass*>{nullptr, nullptr};
-                    if (staticField && owner && staticField->offset < owner->staticStorage.size())
+                    if (staticField && owner && staticField->offset < owner->staticStorage.size()) {
+                        if (!owner->staticsInitialised)
+                            initStaticFields(owner);
                         return owner->staticStorage[staticField->offset];
+                    }
                 }
             }
             return {};
